@@ -22,6 +22,10 @@ pub trait Kind: 'static {
     const BUCKETS: usize;
     const CKSUM: usize;
     fn new_gen() -> Self::G;
+    /// copies the checksum bytes (accessor `checksum().data()`), returns their number; no allocation
+    fn ck_data(h: &Self::H, out: &mut [u8; 3]) -> usize;
+    /// copies the body bytes (accessor `body().data()`), returns their number; no allocation
+    fn body_data(h: &Self::H, out: &mut [u8; 64]) -> usize;
     fn hash_buf(b: &[u8]) -> Result<Self::H, GeneratorError>;
     #[cfg(not(feature = "nostd"))]
     fn hash_stream<R: std::io::Read>(r: &mut R) -> Result<Self::H, tlsh::GeneratorOrIOError>;
@@ -41,6 +45,16 @@ macro_rules! kind {
             const CKSUM: usize = $c;
             fn new_gen() -> Self::G {
                 Generator::<tlsh::hashes::$t>::new()
+            }
+            fn ck_data(h: &Self::H, out: &mut [u8; 3]) -> usize {
+                let d = h.checksum().data();
+                out[..d.len()].copy_from_slice(d);
+                d.len()
+            }
+            fn body_data(h: &Self::H, out: &mut [u8; 64]) -> usize {
+                let d = h.body().data();
+                out[..d.len()].copy_from_slice(d);
+                d.len()
             }
             fn hash_buf(b: &[u8]) -> Result<Self::H, GeneratorError> {
                 tlsh::hash_buf_for::<tlsh::hashes::$t>(b)
